@@ -68,7 +68,9 @@ def exec_target(w, target):
                 return w.construct(r, False)
         except simlock.WouldBlock:
             raise
-        except Exception as e:  # noqa
+        except Violation:
+            raise
+        except BaseException as e:  # noqa  (injected KeyboardInterrupt included)
             return M.Raised(e)
     finally:
         s.lib_active = False
@@ -150,11 +152,22 @@ def fault_run(seed, i, tier):
             h = G.pick(rg, G.attached_handles(w))
             st = G.gen_navigate_step(rg, w, h) if rg.random() < 0.5 else None
             emit(st or G.gen_op_step(rg, w, h, depth=2, mut_weight=0.7))
+        if rg.random() < 0.12:
+            emit({"t": "symlink", "rid": 0})      # the objects' filename is a symbolic link (the first save replaces the link)
+        conflict = mode == "backend" and rg.random() < 0.3
         if mode == "obj":
             emit({"t": "enter", "ctx": "obj", "oid": 0})
         elif mode == "backend":
             emit({"t": "enter", "ctx": "backend", "family": fam, "kind": cfg["kinds"][0]})
-        if mode != "unbuffered" and rg.random() < 0.6:
+        if conflict:
+            # CONFLICT: file 0 is modified in the buffer, then changed by an outside writer; the capacity is set to the
+            # current buffer size, so the target's own save forces a flush that raises BufferedError out of the operation
+            r0 = w.res[0]
+            emit({"t": "op", "hid": 0, "name": "setitem", "args": ["cfl", w.fresh.int()]} if r0.kind == "dict" else {"t": "op", "hid": 0, "name": "append", "args": [w.fresh.int()]})
+            emit({"t": "outside", "rid": 0, "edit": ["replace", gen_value(rg, w.fresh, 2, r0.kind, 3)]})
+            for k_ in sorted(set(cfg["kinds"])):
+                emit({"t": "setcap_cur", "family": fam, "kind": k_})
+        elif mode != "unbuffered" and rg.random() < 0.6:
             emit(G.gen_op_step(rg, w, w.handles[0], depth=2, mut_weight=0.8))
         # ---- the target ----
         roll = rg.random()
@@ -163,8 +176,13 @@ def fault_run(seed, i, tier):
             target = {"t": "exit"}
         elif mode != "unbuffered" and roll < 0.3:
             target = {"t": "setcap", "family": fam, "kind": cfg["kinds"][0], "n": 0}
-        elif roll < 0.36:
+        elif roll < 0.36 and not conflict:
             target = {"t": "construct", "rid": 0}
+        elif conflict:
+            # a mutator on either file: its save exceeds the capacity and forces the flush that hits the conflict
+            h = G.pick(rg, [x for x in G.attached_handles(w) if not x.path])
+            target = G.gen_op_step(rg, w, h, depth=2, mut_weight=1.0)
+            target.pop("keep", None)
         else:
             h = G.pick(rg, hs)
             target = G.gen_op_step(rg, w, h, depth=2, mut_weight=0.75)
@@ -198,6 +216,8 @@ def fault_run(seed, i, tier):
             ww.close()
     try:
         n, _, res0 = one()
+        if conflict and isinstance(res0, M.Raised) and isinstance(res0.exc, ns.errors.BufferedError):
+            stats["conflict_raised_in_op"] = stats.get("conflict_raised_in_op", 0) + 1
         kinds_seen = []
         # the sequence of seam kinds of the dry run (to choose matching exception types)
         ww = make_world(cfg, prefix)
@@ -218,6 +238,8 @@ def fault_run(seed, i, tier):
             else:
                 exc = ("OSError", G.pick(rg, OSERRS))
             stats["fault_points"] += 1
+            if rg.random() < 0.2:
+                exc = ("KeyboardInterrupt",)     # a non-Exception BaseException (signal handler, cancellation) at this seam call
             _, fired, res = one({"at": k, "exc": exc})
             if fired:
                 stats["fault_fired"] += 1
@@ -256,6 +278,8 @@ def fault_run(seed, i, tier):
                             raise Violation("lock_leak", f"after A.filename = new, {who} is blocked on {e.lock!r}")
                         except KeyError as e:
                             raise Violation("rebind_broke_other_object", f"after A.filename = new, an operation through {who} raised KeyError({e})")
+                        except Exception:
+                            pass      # e.g. the BufferedError of the conflict configuration: only blocking / KeyError matter here
                 finally:
                     ww.seams.lib_active = False
                 check_no_lock(ww, "filename re-binding")
@@ -312,6 +336,11 @@ def thread_build(seed, i, tier):
                 ops.append({"h": h, "name": "$construct", "args": []})
             elif roll < 0.45:
                 ops.append({"h": h, "name": "$rebind", "args": [f"alt{rs.randrange(2)}.json"]})
+            elif roll < 0.53 and nres == 2:
+                # copy from a collection bound to the OTHER file (a.update(b) next to b.update(a)): two per-file locks
+                others = [x for x in range(nobj) if obj_rid[x] != obj_rid[h]]
+                o = others[rs.randrange(len(others))]
+                ops.append({"h": h, "name": "update" if kind == "dict" else "extend", "args": [{"$handle": o}]})
             elif roll < 0.6:
                 name, args = _thr.gen_thread_op(rs, fresh, kind, c, readers=True)
                 ops.append({"h": h, "name": name, "args": args})
@@ -398,7 +427,7 @@ def run_one(seed, i, tier):
         r = fault_run(seed, i, tier)
         st = r["stats"]
         res = {"viol": None, "evals": r["evals"], "steps": st["fault_points"], "sigs": r["sigs"],
-               "probes": {k: st[k] for k in ("fault_fired", "fault_in_load", "fault_in_save", "second_thread_ok", "rebind_checked")},
+               "probes": {k: st.get(k, 0) for k in ("fault_fired", "fault_in_load", "fault_in_save", "second_thread_ok", "rebind_checked", "conflict_raised_in_op")},
                "faults": {"io_error_or_encoder_error": st["fault_fired"], "corrupt_resource": st["corrupt"], "rejected_input": st["rejected"],
                           "filename_rebind": st["rebind_checked"]}, "stats": {"fault_points": st["fault_points"]}}
         res["logd"] = digest([jsonable(r["sample"]), sorted(st.items()), r["sigs"]])
